@@ -19,6 +19,16 @@ URIS = ["https://eml.ecoinformatics.org/eml-2.2.0", "http://www.xml-cml.org/sche
         "urn:x", "u1", "u2", "http://example.org/ns?a=1&b=2", ""]
 
 
+_VOCABULARY = []
+
+
+def vocabulary():
+    if not _VOCABULARY:
+        from metapype.eml import rule as _rule
+        _VOCABULARY.extend(sorted(_rule.node_mappings) + ["inline", "span", "div", "annotation", "markdown", "literalLayout"])
+    return _VOCABULARY
+
+
 def ustr(rng, maxlen=10, alph=ALPH):
     if maxlen >= 8 and rng.random() < 0.003:
         return rng.choice(["a", "é", "a b "]) * rng.choice([255, 256, 257, 4096])     # sizes that buffers and caches care about
@@ -34,7 +44,11 @@ def random_tree(rng, size, max_depth=30, names=None, text_alph=ALPH, p_ns=0.25, 
     """Nodes are created bare, decorated, then attached with add_child (random positions); namespaces are declared
     with add_namespace both before and after attaching (re-declarations in subtrees included)."""
     def new_node(same_id_as=None):
-        n = Node(rng.choice(names) if names and rng.random() < 0.7 else ustr(rng, 6, text_alph) or "n",
+        if names and rng.random() < 0.15:
+            names_ = vocabulary()         # any element name of the real vocabulary (a name may mean something to the code under test)
+        else:
+            names_ = names
+        n = Node(rng.choice(names_) if names_ and rng.random() < 0.7 else ustr(rng, 6, text_alph) or "n",
                  id=same_id_as.id if same_id_as is not None else None)
         n.content = opt_text(rng, 0.35, 12, text_alph)
         if rng.random() < p_tail:
